@@ -3,7 +3,9 @@ package main
 import (
 	"encoding/json"
 	"fmt"
+	"io"
 	"os"
+	"runtime/debug"
 
 	"fortio.org/log"
 	"grol.io/grol/extensions"
@@ -25,13 +27,17 @@ func usage() {
 }
 
 func main() {
-	log.SetLogLevelQuiet(log.Critical) // grol logs errors/panics it handles; the harness observes them through the API
+	log.SetLogLevelQuiet(log.Critical)
+	log.SetOutput(io.Discard) // recovered panics are logged by grol at critical level; the harness observes them through the API // grol logs errors/panics it handles; the harness observes them through the API
 	if len(os.Args) > 1 && os.Args[1] != "worker" {
 		// workers that need a non-default extensions.Config initialise extensions themselves
 		if err := extensions.Init(nil); err != nil {
 			fmt.Fprintln(os.Stderr, "extensions.Init:", err)
 			os.Exit(2)
 		}
+	}
+	if os.Getenv("GOMEMLIMIT") == "" {
+		debug.SetMemoryLimit(3 << 30) // grol's allocation guard is relative to the Go memory limit
 	}
 	registerVerifExtensions()
 	registerProps()
